@@ -4,10 +4,10 @@ import gen, streams
 from common import *
 
 NEEDS_DRIVER = True
-RULE = ('subprocess runs: nesting construct (parens, brackets, CASE, function calls, subqueries, unclosed openers, BEGIN blocks, mixed) x depth (below, around and beyond the '
+RULE = ('subprocess runs: nesting construct (parens, brackets, CASE, function calls, subqueries, unclosed openers, BEGIN blocks, mixed; calls / subqueries / CASE / parentheses with a comma list on the nesting path: right-nested, left-nested, in the middle) x depth (below, around and beyond the '
         'recursion limit) x recursion limit {200, 500, 1000, 3000} x entry point {parse, parsestream (at once and statement by statement with the deep statement second of three, and abandoned), split, format with option sets, the command line tool}; after a successful parse the str/repr/_pprint_tree/flatten/get_sublists/accessor calls at the same limit, the tree compared with the tree built under a high limit, the recursion limit of the interpreter unchanged; each followed by an ordinary call in the same process; '
         'successful results are checked for round trip and tree well-formedness (parent links, cached group values), formatted results for their significant tokens; every depth 1..85 at limit 80 '
-        '(parse + thirteen option sets; nineteen ways to nest); soak: 300 calls at depths from a quarter of the limit to beyond it, at two limits, in one process, then a moderately nested ordinary script; after EVERY case the trees, pieces and formattings of four ordinary scripts are compared with what the same calls gave at the start of the process (each subprocess accumulates some hundred failing calls); non-trivial = distinct (construct, depth, limit, entry point)')
+        '(parse + thirteen option sets; twenty-eight ways to nest); soak: 300 calls at depths from a quarter of the limit to beyond it, at two limits, in one process, then a moderately nested ordinary script; after EVERY case the trees, pieces and formattings of four ordinary scripts are compared with what the same calls gave at the start of the process (each subprocess accumulates some hundred failing calls); non-trivial = distinct (construct, depth, limit, entry point)')
 ASSUMPTIONS = ['CPython frame accounting and C-stack behaviour are observed, not modelled', 'lexer/splitter/grouping models tied by S-TREE on the nesting constructs (and by the streams of C01/C02/C04)']
 PARTIAL = ['over the model: the only failure of parse is RecursionError (parse_fails_only_by_depth), it is mapped to SQLParseError at every stage, enough depth always succeeds; what depth CPython needs for a given input (frame accounting, C stack) is observed by subprocess runs at several recursion limits, not modelled']
 
@@ -37,6 +37,16 @@ def build(kind, d):
     if kind == 'typecast': return 'select a' + '::int' * d + ' from ' + 'a.' * d + 'b'
     if kind == 'alias': return 'select ' + '(a) as ' * d + 'b'
     if kind == 'over': return 'select ' + 'f(x) over (order by ' * d + 'y' + ')' * d
+    # comma lists on the nesting path: the nested group as a later element of its list (r…: right-nested, m…: in the middle) or as the first one (l…: left-nested)
+    if kind == 'rcall': return 'select ' + 'f(a, ' * d + '1' + ')' * d
+    if kind == 'lcall': return 'select ' + 'f(' * d + '1' + ', a)' * d
+    if kind == 'mcall': return 'select ' + 'f(a, ' * d + '1' + ', a)' * d
+    if kind == 'rsub': return 'select * from ' + 'y, (select * from ' * d + 't' + ') x' * d
+    if kind == 'lsub': return 'select * from ' + '(select * from ' * d + 't' + ') x, y' * d
+    if kind == 'rcase': return 'select ' + 'case when 1 then a, ' * d + '1' + ' end' * d
+    if kind == 'lcase': return 'select ' + 'case when 1 then ' * d + '1' + ' end, a' * d
+    if kind == 'rparen': return 'select ' + '(a, ' * d + '1' + ')' * d
+    if kind == 'lparen': return 'select ' + '(' * d + '1' + ', a)' * d
     raise ValueError(kind)
 def wf(node):
     for ch in node.tokens:
@@ -76,6 +86,27 @@ def user_calls(stmts):
             except RecursionError:
                 return name
     return None
+def nesting_path(stmts):
+    # the longest root-to-leaf path of the trees (found without recursion) and, for every comma list on it that is entered through a GROUP child, whether
+    # that child is the first element of the list or follows a comma
+    from sqlparse import sql, tokens as T
+    best = (0, None)
+    for s0 in stmts:
+        st = [(s0, 1)]
+        while st:
+            n, d = st.pop()
+            if d > best[0]: best = (d, n)
+            if n.is_group:
+                for c in n.tokens: st.append((c, d + 1))
+    depth, n = best
+    first = later = 0
+    while n is not None and n.parent is not None:
+        p = n.parent
+        if isinstance(p, sql.IdentifierList) and n.is_group:
+            if any(t.ttype is T.Punctuation and t.value == ',' for t in p.tokens[:p.tokens.index(n)]): later += 1
+            else: first += 1
+        n = p
+    return {'tree_depth': depth, 'lists_entered_at_first_element': first, 'lists_entered_after_a_comma': later}
 KINDS_SOAK = ['call', 'paren', 'bracket']
 def sig(t, opts):
     # significant tokens of a text (whitespace aside; comments aside when they are stripped; keywords compared in upper case)
@@ -119,6 +150,7 @@ for kind, depth, limit, entry, opts in cases:
     text = build(kind, depth)
     sys.setrecursionlimit(limit)
     res = None
+    info = None
     try:
         if entry == 'soak':
             # many failing calls in a row in one process: nothing may accumulate
@@ -140,7 +172,11 @@ for kind, depth, limit, entry, opts in cases:
             elif not all(wf(s) and s.value == str(s) for s in r): res = 'ill-formed-tree'
             else:
                 uc = user_calls(r)
-                if uc: res = 'RecursionError-in-user-call:' + uc
+                if uc:
+                    res = 'RecursionError-in-user-call:' + uc
+                    sys.setrecursionlimit(max(20000, 8 * limit))
+                    info = nesting_path(r)
+                    sys.setrecursionlimit(limit)
                 elif sys.getrecursionlimit() != limit: res = 'recursion-limit-changed:%%d' %% sys.getrecursionlimit()
                 elif limit <= 1000:
                     # the tree built close to the limit is the tree built with plenty of stack (limits up to 1000: beyond, the second parse is too slow)
@@ -213,10 +249,12 @@ for kind, depth, limit, entry, opts in cases:
     except Exception as e:
         later = 'raised ' + type(e).__name__
     out.append([res, later])
-    print(json.dumps([res, later]), flush=True)
+    print(json.dumps([res, later] + ([info] if info else [])), flush=True)
 '''
 
 KINDS = ['paren', 'bracket', 'case', 'call', 'subquery', 'unclosed', 'closers', 'begin', 'mixed', 'ops', 'list']
+# comma lists on the nesting path (main loop, depth scan and the model stream)
+KINDS_LISTS = ['rcall', 'lcall', 'mcall', 'rsub', 'lsub', 'rcase', 'lcase', 'rparen', 'lparen']
 # further ways to nest (depth scan only)
 KINDS2 = ['if', 'loop', 'compare', 'assign', 'between', 'typecast', 'alias', 'over']
 OPTS = [{}, {'reindent': True}, {'reindent_aligned': True}, {'strip_comments': True, 'strip_whitespace': True}, {'use_space_around_operators': True},
@@ -238,13 +276,14 @@ def run(ctx):
     # the models behind parse_fails_only_by_depth, on the nesting constructs themselves (moderate depths: same tree or both sides fail)
     if ctx.model.available:
         import streams
-        nested = [build(kind, d) for kind in KINDS for d in ([1, 2, 3, 5, 8, 13, 30] if ctx.quick() else list(range(1, 16)) + [20, 30, 45, 60])]
+        nested = [build(kind, d) for kind in KINDS + KINDS_LISTS for d in ([1, 2, 3, 5, 8, 13, 30] if ctx.quick() else list(range(1, 16)) + [20, 30, 45, 60])]
         streams.s_tree(ctx, nested, fuel=1500)   # every construct adds up to five tree levels per nesting step
     cases = []
     limits = [200, 500, 1000] if ctx.quick() else [200, 500, 1000, 3000]
     for limit in limits:
-        for kind in KINDS:
-            for depth in sorted({3, limit // 20, limit // 8, limit // 4, limit // 2, limit, 2 * limit}):
+        for kind in KINDS + KINDS_LISTS:
+            # (2/5 and 11/20 of the limit: between "everything fits" and "grouping overflows" — there a tree can come back that a traversal cannot walk)
+            for depth in sorted({3, limit // 20, limit // 8, limit // 4, 2 * limit // 5, limit // 2, 11 * limit // 20, limit, 2 * limit}):
                 nth = len(cases)
                 for entry in (['parse', 'format', ['parsestream', 'split', 'lazy', 'cli'][nth % 4]] if ctx.quick() else ['parse', 'parsestream', 'split', 'format', 'lazy', 'cli']):
                     opts = rng.choice(OPTS) if entry == 'format' else ({'argv': rng.choice([[], ['-r'], ['-k', 'upper', '-s']])} if entry == 'cli' else {})
@@ -252,14 +291,14 @@ def run(ctx):
                         continue      # (slow, and the depth scan at limit 80 covers these entry points at every depth)
                     if ctx.quick() and rng.random() < 0.6:
                         continue
-                    if depth > 1500 and kind in ('ops', 'list', 'mixed', 'subquery', 'case'):
+                    if depth > 1500 and kind in ('ops', 'list', 'mixed', 'subquery', 'case', 'rsub', 'lsub', 'rcase', 'lcase'):
                         continue
                     cases.append((kind, depth, limit, entry, opts))
     # every depth around the point where a low recursion limit starts to bite: which frame overflows first (a pass, a constructor, a filter between
     # deleting and inserting, the serializer) changes from one depth to the next
     SCAN_LIMIT = 80
     scan_opts = OPTS[1:6] + OPTS2
-    for ki, kind in enumerate(KINDS + KINDS2):
+    for ki, kind in enumerate(KINDS + KINDS2 + KINDS_LISTS):
         for depth in range(1, (96 if not ctx.quick() else (30 if kind == 'mixed' else 86))):
             if ctx.quick() and kind in KINDS2 and depth % 2:
                 continue
@@ -302,7 +341,7 @@ def run(ctx):
             ctx.count('kind:' + kind)
             if r[0] not in ('ok', 'SQLParseError'):
                 ctx.fail('outcome is neither a valid result nor SQLParseError', {'kind': kind, 'depth': depth, 'limit': limit, 'entry': entry, 'options': opts},
-                         observed=r[0], required='ok or SQLParseError')
+                         observed=r[0], required='ok or SQLParseError', **({'nesting_path': r[2]} if len(r) > 2 else {}))
             if isinstance(r[1], str) and r[1].startswith('ordinary calls give different results'):
                 # a failure of the history: the input is the sequence of calls of this process up to here (reported once per process; replay runs the sequence)
                 if not drifted:
@@ -333,6 +372,27 @@ def replay(ctx, payload):
     return lines[-1][0] not in ('ok', 'SQLParseError') or lines[-1][1] is not True
 
 
+def classify(f, kf):
+    """KF-C15-1 by its mechanism: parse() SUCCEEDED, a read-only traversal of the returned tree overflows at the same recursion limit, and the nesting path of the
+    tree enters its comma lists only AFTER a comma (the nested group is a later element of each list — the levels that grouping added after its own deepest
+    str()).  A tree whose nesting path enters a list at its first element, or has no list on it, is never this finding."""
+    for k in kf:
+        if k['id'] == 'KF-C15-1' and isinstance(f.get('observed'), str) and f['observed'].startswith('RecursionError-in-user-call:'):
+            np = f.get('nesting_path') or {}
+            if np.get('lists_entered_after_a_comma', 0) >= 1 and np.get('lists_entered_at_first_element', 1) == 0:
+                return k['id']
+    return None
+
+
 def replay_known(ctx, k):
+    if k['id'] == 'KF-C15-1':
+        for w in k.get('witnesses', []):
+            c = w['input']
+            src = SCRIPT % {'repo': REPO, 'cases': [(c['kind'], c['depth'], c['limit'], 'parse', {})]}
+            p = subprocess.run([PY, '-'], input=src, stdout=subprocess.PIPE, stderr=subprocess.PIPE, text=True, timeout=600)
+            lines = [json.loads(l) for l in p.stdout.strip().split('\n') if l.strip()]
+            if lines and str(lines[0][0]).startswith('RecursionError-in-user-call'):
+                return True
+        return False
     import props.C20 as C20
     return C20.replay_known(ctx, k)
